@@ -574,7 +574,9 @@ impl MaTreeNode {
         let mut next_index = 0usize;
         for (idx, (node, range_end)) in range_nodes.into_iter().enumerate() {
             if range_end == i32::MAX {
-                *indices.last_mut().unwrap() = next_index_base + idx as u32;
+                // The last range takes every remaining entry: one if there are values above
+                // `upper_bound`, more if a decision value is `i32::MAX` itself.
+                indices[next_index..].fill(next_index_base + idx as u32);
                 nodes.push(node);
                 break;
             }
